@@ -96,6 +96,23 @@ func shieldedOlderLock(e *guardEnv, h uint64, order [3]int) {
 	e.nv.pp.hash, e.nvBk = hashOfBody(b1.body), b1
 }
 
+// threeLocks: three votes carry genuine proofs of three different earlier views (tv-5, tv-3, tv-1) for three different blocks, placed
+// in the given order among the first three votes; the NEW_VIEW proposes the block of the oldest (0), middle (1) or newest (2) proof.
+// Only the newest is what the votes justify, whatever their order.
+func threeLocks(e *guardEnv, h uint64, order [3]int, propose int) {
+	if e.tv < 6 || len(e.vds) < 3 {
+		return
+	}
+	bs := []*vBlock{e.r.adv.newBody(e.r, h, false), e.r.adv.newBody(e.r, h, false), e.r.adv.newBody(e.r, h, false)}
+	proofs := []proofD{validProofFor(e, h, e.tv-5, bs[0]), validProofFor(e, h, e.tv-3, bs[1]), validProofFor(e, h, e.tv-1, bs[2])}
+	senders := []primitives.MemberId{e.vds[0].sender, e.vds[1].sender, e.vds[2].sender}
+	for k := 0; k < 3; k++ {
+		e.vds[order[k]].proof = proofs[k]
+		e.vds[order[k]].sender = senders[order[k]]
+	}
+	e.nv.pp.hash, e.nvBk = hashOfBody(bs[propose].body), bs[propose]
+}
+
 func cmdGuards(args []string) int {
 	fs := flag.NewFlagSet("guards", flag.ExitOnError)
 	outPath := fs.String("out", "guards.ndjson", "")
@@ -298,6 +315,24 @@ func cmdGuards(args []string) int {
 		{"older_lock_shielded_by_split_views_proof_order_120", func(e *guardEnv) { shieldedOlderLock(e, h, [3]int{1, 2, 0}) }},
 		{"older_lock_shielded_by_split_views_proof_order_201", func(e *guardEnv) { shieldedOlderLock(e, h, [3]int{2, 0, 1}) }},
 		{"older_lock_shielded_by_split_views_proof_order_210", func(e *guardEnv) { shieldedOlderLock(e, h, [3]int{2, 1, 0}) }},
+		{"three_locks_order_012_proposes_oldest", func(e *guardEnv) { threeLocks(e, h, [3]int{0, 1, 2}, 0) }},
+		{"three_locks_order_012_proposes_middle", func(e *guardEnv) { threeLocks(e, h, [3]int{0, 1, 2}, 1) }},
+		{"three_locks_order_012_proposes_newest", func(e *guardEnv) { threeLocks(e, h, [3]int{0, 1, 2}, 2) }},
+		{"three_locks_order_021_proposes_oldest", func(e *guardEnv) { threeLocks(e, h, [3]int{0, 2, 1}, 0) }},
+		{"three_locks_order_021_proposes_middle", func(e *guardEnv) { threeLocks(e, h, [3]int{0, 2, 1}, 1) }},
+		{"three_locks_order_021_proposes_newest", func(e *guardEnv) { threeLocks(e, h, [3]int{0, 2, 1}, 2) }},
+		{"three_locks_order_102_proposes_oldest", func(e *guardEnv) { threeLocks(e, h, [3]int{1, 0, 2}, 0) }},
+		{"three_locks_order_102_proposes_middle", func(e *guardEnv) { threeLocks(e, h, [3]int{1, 0, 2}, 1) }},
+		{"three_locks_order_102_proposes_newest", func(e *guardEnv) { threeLocks(e, h, [3]int{1, 0, 2}, 2) }},
+		{"three_locks_order_120_proposes_oldest", func(e *guardEnv) { threeLocks(e, h, [3]int{1, 2, 0}, 0) }},
+		{"three_locks_order_120_proposes_middle", func(e *guardEnv) { threeLocks(e, h, [3]int{1, 2, 0}, 1) }},
+		{"three_locks_order_120_proposes_newest", func(e *guardEnv) { threeLocks(e, h, [3]int{1, 2, 0}, 2) }},
+		{"three_locks_order_201_proposes_oldest", func(e *guardEnv) { threeLocks(e, h, [3]int{2, 0, 1}, 0) }},
+		{"three_locks_order_201_proposes_middle", func(e *guardEnv) { threeLocks(e, h, [3]int{2, 0, 1}, 1) }},
+		{"three_locks_order_201_proposes_newest", func(e *guardEnv) { threeLocks(e, h, [3]int{2, 0, 1}, 2) }},
+		{"three_locks_order_210_proposes_oldest", func(e *guardEnv) { threeLocks(e, h, [3]int{2, 1, 0}, 0) }},
+		{"three_locks_order_210_proposes_middle", func(e *guardEnv) { threeLocks(e, h, [3]int{2, 1, 0}, 1) }},
+		{"three_locks_order_210_proposes_newest", func(e *guardEnv) { threeLocks(e, h, [3]int{2, 1, 0}, 2) }},
 		{"one_vote_with_proof_of_other_instance", func(e *guardEnv) { // a lock "proof" of another instance must not steer the proposal
 			b := other(e)
 			pv := e.tv - 1
